@@ -30,6 +30,12 @@ def tasks(ctx, quick):
             t["energy"] = rng.choice([0.0327, 1.0, 5.0, 25.3, 81.8, 500.0, 3272.0, rng.uniform(0.04, 30000)])
         else:
             t["wavelength"] = sorted(rng.sample(WAVELENGTHS, rng.randint(1, 4)))
+            if i % 8 == 3:       # integer-valued vectors (integer array / list / tuple)
+                t["wavelength"] = sorted(rng.sample([1, 2, 3, 4, 5, 6, 12], rng.randint(1, 4)))
+            t["wform"] = rng.choice(["array", "list", "tuple"])
+        t["via"] = ["formula", "kw", "carried", "formula", "kw", "carried-own"][i % 6 if i % 7 else 2]
+        if t["via"] == "carried":
+            t["carried"] = rng.choice([1.0, 3.3, 11.0])
         add(t)
     # energy-dependent atoms across their whole table range, including beyond both ends
     for z, a in gen.tablelike:
@@ -59,6 +65,11 @@ def run_items(ctx, items, label):
         events += evs
     for it in items:
         byid[it["id"]] = it
+    raw = neutgen.raw_has_data()
+    for e in events:
+        for part in e.get("ps", []):
+            z, a, q = part["atom"]
+            part["raw"] = bool(raw.get((z, a), False))
     bad = [e for e in events if e["ev"] == "harness_exc"]
     events = [e for e in events if e["ev"] != "harness_exc"]
     for e in bad:
